@@ -199,7 +199,7 @@ impl RpDb {
         let mut accounts = BTreeMap::new();
         for pre in &c.prelude {
             // the RP got this key at a registration outside the run
-            let vk = p256::ecdsa::VerifyingKey::from(p256::ecdsa::SigningKey::from(secret_from_seed(pre.key_seed)));
+            let vk = p256::ecdsa::VerifyingKey::from(p256::ecdsa::SigningKey::from(crate::model::secret_of_pre(pre)));
             accounts.insert(pre.id.clone(), (pre.rp_id.clone(), Some(vk)));
         }
         for o in &rec.ops {
